@@ -49,17 +49,39 @@ def isect_record(inter, case):
     unit, ox_, oy_ = case.get("unit", 1.0), case.get("offx", 0.0), case.get("offy", 0.0)
     rec = dict(kind="isect", p=case["p"], q=case["q"], ox=[], oy=[], exc="",
                exact=bool(unit == 1.0 and ox_ == 0.0 and oy_ == 0.0 and case.get("src") != "random"))
+    intype = case.get("intype", "float")
+
+    def typed(col, which):
+        """integer-valued vertex coordinates in the container / dtype the case asks for"""
+        t = intype if intype != "mixed" else ("pylist" if which == "p" else "float")
+        if t == "pylist":
+            return [int(v) for v in col]
+        if t == "tuple":
+            return tuple(int(v) for v in col)
+        if t in ("int64", "int32", "float32"):
+            return np.asarray(col).astype(t)
+        return np.asarray(col, dtype=float)
     try:
         with warnings.catch_warnings():
             warnings.simplefilter("ignore")
-            x, y = inter(p[:, 0] * unit + ox_, p[:, 1] * unit + oy_, q[:, 0] * unit + ox_, q[:, 1] * unit + oy_)
+            if intype != "float":
+                if not rec["exact"] and case.get("src") != "random" or unit != 1.0 or ox_ != 0.0 or oy_ != 0.0:
+                    raise Machinery("typed intersection inputs are integer-valued: no unit / offset")
+                x, y = inter(typed(p[:, 0], "p"), typed(p[:, 1], "p"), typed(q[:, 0], "q"), typed(q[:, 1], "q"))
+            else:
+                x, y = inter(p[:, 0] * unit + ox_, p[:, 1] * unit + oy_, q[:, 0] * unit + ox_, q[:, 1] * unit + oy_)
         x = (np.asarray(x, dtype=float) - ox_) / unit
         y = (np.asarray(y, dtype=float) - oy_) / unit
         rec["ox"] = [Qc(v, 1e6) for v in x]
         rec["oy"] = [Qc(v, 1e6) for v in y]
+    except Machinery:
+        raise
     except Exception as e:  # noqa
         rec["exc"] = f"{type(e).__name__}: {e}"[:160]
     return rec
+
+
+INTYPES = ["pylist", "int64", "int32", "float32", "tuple", "mixed"]
 
 
 def random_polylines(rng, count):
@@ -86,6 +108,8 @@ def random_polylines(rng, count):
         if t % 2:
             case.update(unit=float(rng.choice([0.37, 0.1, 2.5])), offx=float(rng.uniform(-50, 50)),
                         offy=float(rng.uniform(-50, 50)))
+        elif (t // 2) % 7:        # integer-valued vertices handed over as ints / int arrays / float32 / tuples
+            case["intype"] = INTYPES[(t // 2) % 7 - 1]
         yield case
 
 
@@ -404,8 +428,8 @@ def key_of(case, ycls=""):
     k = case["kind"]
     if k == "isect":
         if case.get("src") == "random":
-            return f"intersection random p={case['p']} q={case['q']} unit={case.get('unit', 1.0)}"
-        return f"intersection lattice p={case['p']} q={case['q']} unit={case.get('unit', 1.0)}"
+            return f"intersection random p={case['p']} q={case['q']} unit={case.get('unit', 1.0)} type={case.get('intype', 'float')}"
+        return f"intersection lattice p={case['p']} q={case['q']} unit={case.get('unit', 1.0)} type={case.get('intype', 'float')}"
     if k == "dcl":
         order = "asc" if case["xs"][0] < case["xs"][-1] else "desc"
         return (f"design lattice poly={case['poly']} xs={order} swap={case['swap']} "
@@ -529,7 +553,9 @@ def run(ctx):
                 "(quick) / 5 (thorough) vertices on the 4x4 lattice (all rotations) x abscissae at every half unit "
                 "from one below to one above the extent (ascending; descending and swap_axis for all (thorough) / every "
                 "8th resp. 2nd polygon (quick)) through "
-                "calculate_design_conditions, plus scaled / shifted copies; seeded random: integer polylines on "
+                "calculate_design_conditions, plus scaled / shifted copies; every 6th (quick) / 5th (thorough) lattice pair "
+                "and 3/7 of the unscaled random pairs also with the vertex sequences typed as Python int lists, int64 / "
+                "int32 / float32 arrays, tuples, one curve int and one float; seeded random: integer polylines on "
                 "0..100, star-shaped non-convex float polygons and IFORM / ISORM / direct-sampling contours of "
                 "random 2-D models x steps None / int / lists inside, outside, at vertex abscissae, integer-typed "
                 "(int list, range, int64 / int32 array, mixed, tuple), within 1-3 ulp of vertex abscissae, the polygon's "
@@ -565,6 +591,9 @@ def run(ctx):
     gen = ctx.generate("IntersectGen", ctx.pick("Gen_Intersect_quick.cfg", "Gen_Intersect_thorough.cfg"), timeout=3000)
     cases = [dict(kind="isect", p=g["p"], q=g["q"]) for g in gen]
     sc = [dict(c, unit=0.3, offx=-1.7, offy=0.9) for c in cases[::ctx.pick(15, 11)]]
+    # the same lattice pairs with the vertex sequences typed as Python ints, int64 / int32 / float32 arrays,
+    # tuples, or one curve int and one float (the crossings are in general not integers)
+    sc += [dict(c, intype=INTYPES[k % len(INTYPES)]) for k, c in enumerate(cases[3::ctx.pick(6, 5)])]
     rp = list(random_polylines(rng, ctx.pick(1500, 20000)))
     recs = judge(ctx, vc, cases + sc + rp, "lattice polyline pairs + random integer polylines", selftest=True)
     ctx.sample({"emitted": gen[len(gen) // 3], "record": recs[len(gen) // 3]})
